@@ -380,6 +380,8 @@ def run(tier, seed):
     for sp_ in URI_SEGS:
         extra4 += ["/" + sp_, "/a/" + sp_, "/" + sp_ + "/a"]
     extra4 += ["/a/a", "/a"] if "/a/a" not in p3 else []
+    # names the stores use for their own bookkeeping
+    extra4 += ["/_dds_meta/a", "/_dds_meta/a/b", "/_dds_meta", "/blobs/a", "/data/a"]
     singles = [(k, p) for k in ("memory", "local", "dbfs") for p in p3 + extra4]
     sres = pool.pmap(_single_job, singles)
     status = {}
